@@ -28,7 +28,7 @@ type e2Scenario struct {
 	Rows        []uint32
 }
 
-var e2Cols = []ColSpec{{"x", KInt64}, {"m", KInt64}, {"im", KInt64Mul}, {"sc", KStringCat}, {"s", KString}, {"e", KEnum}, {"b", KBool}, {"f", KFloat64},
+var e2Cols = []ColSpec{{"x", KInt64}, {"m", KInt64}, {"im", KInt64Mul}, {"sc", KStringCat}, {"s", KString}, {"e", KEnum}, {"b", KBool}, {"f", KFloat64}, {"rm", KRecordMerge},
 	{"p0", KInt64}, {"p1", KInt64}, {"p2", KInt64}, {"p3", KInt64}}
 
 var e2Idx = []IndexSpec{{Name: "m_big", Col: "m", P: Pred{Op: "int>=", I: 3}}, {Name: "x_neg", Col: "x", P: Pred{Op: "int<", I: 0}}, {Name: "sc_long", Col: "sc", P: Pred{Op: "len>", I: 1}}}
@@ -46,13 +46,18 @@ func inskey(k string, ws ...Write) Op { return Op{T: "inskey", Key: k, W: ws} }
 func upskey(k string, ws ...Write) Op { return Op{T: "upskey", Key: k, W: ws} }
 func ws(w ...Write) []Write           { return w }
 
+// rmg merges a record delta (order-sensitive counter, appended tag) into a record cell that is absent at first
+func rmg(a uint32, tag string) Write {
+	return Write{Col: "rm", Merge: true, V: Val{S: recToString(&Rec{A: a, B: []byte(tag)})}}
+}
+
 const b1 = 16384
 
 var e2Scenarios = map[string]e2Scenario{
 	// two writers on one row of one block: own cells + shared merges (prefix-distinguishable)
 	"2w1b": {Name: "2w1b", Rows: []uint32{1, 2, 3}, Writers: [][]TxnSpec{
-		{txn(at(1, put("p0", 101), add("m", 1), add("im", 5), cat("sc", "a")))},
-		{txn(at(1, put("p1", 201), add("m", 2), add("im", 7), cat("sc", "b")), at(2, put("x", -7)))},
+		{txn(at(1, put("p0", 101), add("m", 1), add("im", 5), cat("sc", "a"), rmg(1, "x")))},
+		{txn(at(1, put("p1", 201), add("m", 2), add("im", 7), cat("sc", "b"), rmg(2, "")), at(2, put("x", -7)))},
 	}},
 	// one writer with one transaction, one with two
 	"2w1b-3txn": {Name: "2w1b-3txn", Rows: []uint32{1, 2, 3}, Writers: [][]TxnSpec{
@@ -71,9 +76,9 @@ var e2Scenarios = map[string]e2Scenario{
 	}},
 	// three mergers on one row
 	"3w": {Name: "3w", Rows: []uint32{1, 2}, Writers: [][]TxnSpec{
-		{txn(at(1, add("m", 1), add("im", 5), cat("sc", "a"), put("p0", 1)))},
-		{txn(at(1, add("m", 2), add("im", 7), cat("sc", "bb"), put("p1", 2)))},
-		{txn(at(1, add("m", 4), add("im", 11), cat("sc", "c"), put("p2", 3)), at(2, add("f", 4607182418800017408)))},
+		{txn(at(1, add("m", 1), add("im", 5), cat("sc", "a"), put("p0", 1), rmg(1, "a")))},
+		{txn(at(1, add("m", 2), add("im", 7), cat("sc", "bb"), put("p1", 2), rmg(2, "b")))},
+		{txn(at(1, add("m", 4), add("im", 11), cat("sc", "c"), put("p2", 3), rmg(3, "")), at(2, add("f", 4607182418800017408)))},
 	}},
 	// a deleting + re-inserting writer beside an updating writer
 	"del": {Name: "del", Rows: []uint32{1, 2, 3}, YieldInsert: true, Writers: [][]TxnSpec{
